@@ -6,6 +6,7 @@
 import GV.Model.Alias
 import GV.Proofs.AList
 import GV.Proofs.Lru
+import GV.Proofs.AliasFill
 namespace GV.Props.C17
 open GV
 
@@ -151,5 +152,25 @@ theorem lru_alias_in_range (r : OutResolver) (S : List (Nat × Bytes)) (cfg : Na
 /-- non-vacuity: capacity 2, three topics: a, b, a (hit), c (evicts b), b (rebound) — all reconstructed -/
 example : lruConnection ((OutResolver.new (.lru 2)).reset 10) [] [(none, [97]), (none, [98]), (none, [97]), (none, [99]), (none, [98])]
     = [some [97], some [98], some [97], some [99], some [98]] := by decide
+
+/-- the alias handed out fits the sixteen bits it is sent in: it is compared with the maximum *before* it is narrowed
+    (with 65535 aliases in use, `len + 1` = 65536 would wrap to alias 0) -/
+theorem lru_alias_fits_u16 (r : OutResolver) (S : List (Nat × Bytes)) (cfg : Nat) (hk : r.kind = .lru cfg)
+    (hcap : r.maxAlias ≤ lruCapacity cfg) (inv : LruInv r S) (hmax : r.maxAlias ≤ 65535) (alias : Option Nat) (topic : Bytes) (a : Nat)
+    (h : (r.resolve alias topic).2.alias = some a) : 1 ≤ a ∧ a ≤ 65535 :=
+  let x := lru_alias_in_range r S cfg hk hcap inv alias topic a h
+  ⟨x.1, Nat.le_trans x.2 hmax⟩
+
+/-- **Filling the resolver**: the state the correspondence check reaches in one request (`alias.out.fill`: n publishes to n
+    fresh topics) is the state the step-by-step model reaches - so the top of the alias range (65535 aliases in use) is
+    compared with the implementation at the cost of one request. -/
+theorem fill_is_stepwise (r : OutResolver) (n : Nat) (hn : n ≤ 262144) : r.fillFast n = r.resolveAll (fillTopics n) :=
+  fillFast_eq r n hn
+
+/-- a full resolver (3 aliases in use): the next fresh topic recycles the least recently used alias (1) -/
+example :
+    let r := (((OutResolver.new (.lru 3)).reset 3).fillFast 3).1
+    (r.resolve none [110]).2 = { skipTopic := false, alias := some 1 } := by
+  decide
 
 end GV.Props.C17
